@@ -23,6 +23,9 @@ func forkAndExecInChild(r *Runner, argv0 *byte, argv, env []*byte, workdir, host
 		unshareUser = r.CloneFlags&unix.CLONE_NEWUSER == unix.CLONE_NEWUSER
 		i           int
 		rlim        rlimit.RLimit
+		// descriptor to exec; a local copy since r may be shared with the
+		// parent (vfork) and must not be modified
+		execFile = r.ExecFile
 	)
 	pipe := p[1]
 
@@ -155,13 +158,13 @@ func forkAndExecInChild(r *Runner, argv0 *byte, argv, env []*byte, workdir, host
 		if err1 != 0 {
 			childExitError(pipe, LocDup3, err1)
 		}
-		r.ExecFile = uintptr(nextfd)
+		execFile = uintptr(nextfd)
 		nextfd++
 	}
 	for i = 0; i < len(fd); i++ {
 		if fd[i] >= 0 && fd[i] < int(i) {
 			// Avoid fd rewrite
-			for nextfd == pipe || (r.ExecFile > 0 && nextfd == int(r.ExecFile)) {
+			for nextfd == pipe || (r.ExecFile > 0 && nextfd == int(execFile)) {
 				nextfd++
 			}
 			_, _, err1 = syscall.RawSyscall(syscall.SYS_DUP3, uintptr(fd[i]), uintptr(nextfd), syscall.O_CLOEXEC)
@@ -489,7 +492,7 @@ func forkAndExecInChild(r *Runner, argv0 *byte, argv, env []*byte, workdir, host
 	// time to exec
 	// if execfile fd is specified, call fexecve
 	if r.ExecFile > 0 {
-		_, _, err1 = syscall.RawSyscall6(unix.SYS_EXECVEAT, r.ExecFile,
+		_, _, err1 = syscall.RawSyscall6(unix.SYS_EXECVEAT, execFile,
 			uintptr(unsafe.Pointer(&empty[0])), uintptr(unsafe.Pointer(&argv[0])),
 			uintptr(unsafe.Pointer(&env[0])), unix.AT_EMPTY_PATH, 0)
 	} else {
@@ -508,7 +511,7 @@ func forkAndExecInChild(r *Runner, argv0 *byte, argv, env []*byte, workdir, host
 		// wait instead of busy wait
 		syscall.RawSyscall(unix.SYS_NANOSLEEP, uintptr(unsafe.Pointer(&etxtbsyRetryInterval)), 0, 0)
 		if r.ExecFile > 0 {
-			_, _, err1 = syscall.RawSyscall6(unix.SYS_EXECVEAT, r.ExecFile,
+			_, _, err1 = syscall.RawSyscall6(unix.SYS_EXECVEAT, execFile,
 				uintptr(unsafe.Pointer(&empty[0])), uintptr(unsafe.Pointer(&argv[0])),
 				uintptr(unsafe.Pointer(&env[0])), unix.AT_EMPTY_PATH, 0)
 		} else {
